@@ -346,6 +346,25 @@ def run_waits(ctx, desc):
             ctx.violation("waiter-not-woken", "the frame was delivered to the consumer but the reader waiting in wait_for_reception() was not woken", case)
         elif status != "returned" or val != sent.get("ts"):
             ctx.violation("wait-for-reception", f"wait_for_reception ended {status} with {val!r}, frame timestamp {sent.get('ts')!r}", case)
+        # the frame is being received at the very moment the wait begins (receiver held where it takes the map's lock until
+        # the reader is parked): it is processed after the wait began, so the reader gets its timestamp
+        race = {}
+
+        def receive_now():
+            pm[0].raw = 0
+            mark = len(bus.log)
+            pm.transmit()
+            race["ts"] = [f for f in list(bus.log)[mark:] if f.src == "producer"][0].ts
+        bus.quiesce()
+        status, val = waits.arrival_race(cond, lambda: (receive_now(), bus.quiesce()), lambda: cm.wait_for_reception(40))
+        bus.quiesce()
+        ctx.count("wait_cases")
+        ctx.case(("wait-reception-arrival-race",), nontrivial=True)
+        if status in ("hung", "never-waited", "receiver-never-arrived"):
+            ctx.inconc(f"wait_for_reception arrival race: {status}", case)
+        elif status != "returned" or val is None or val != race.get("ts"):
+            ctx.violation("wait-for-reception-missed-frame-arriving-as-the-wait-begins", f"a frame processed right after the wait had begun: "
+                          f"wait_for_reception ended {status} with {val!r}, frame timestamp {race.get('ts')!r}", case)
         # nothing arrives -> None; a frame that arrived before the wait does not count
         status, val = waits.run_waiter(lambda: cm.wait_for_reception(0.02), cond, None)
         ctx.count("wait_cases")
@@ -369,9 +388,16 @@ def run_waits(ctx, desc):
         # timestamp: the frame that arrives during the wait is still "a reception" and its timestamp is returned
         for same_ts in (0.0, 1234.5):
             raw = bytes(cm.data)
-            cnet.notify(0x180 + K, bytearray(raw), same_ts)          # earlier frame, nobody waiting
-            status, val = waits.run_waiter(lambda: cm.wait_for_reception(40), cond,
-                                           lambda: cnet.notify(0x180 + K, bytearray(raw), same_ts))
+            import can as _can
+
+            def feed(ts=same_ts, raw=raw):
+                # through the network's listener, the way a python-can Notifier hands frames over (time stamp and all)
+                cnet.listeners[0].on_message_received(_can.Message(arbitration_id=0x180 + K, data=bytearray(raw), timestamp=ts,
+                                                                   is_extended_id=False, check=False))
+            feed()                                                   # earlier frame, nobody waiting
+            status, val = waits.run_waiter(lambda: cm.wait_for_reception(40), cond, feed)
+            if status == "returned" and cm.timestamp != same_ts:
+                ctx.violation("consumer-timestamp", f"a frame stamped {same_ts!r} left map.timestamp = {cm.timestamp!r}", case)
             ctx.count("wait_cases")
             ctx.case(("wait-reception-same-timestamp", same_ts), nontrivial=True)
             if status in ("hung", "never-waited"):
